@@ -19,6 +19,7 @@ type c17Case struct {
 	Desired, Max int
 	D            int64
 	Delete       int // nodes removed (DeleteNodes) between Refresh and IncreaseSize
+	DeleteFailAt int // k-th terminate call of that removal fails (0 = none); the controller logs the error and goes on
 	Fleet        bool
 	Lifecycle    string
 	Overrides    int
@@ -52,7 +53,12 @@ func c17Run(p c17Case) (entries []sim.Entry, err error, before, after int64, set
 		return nil, nil, 0, 0, e
 	}
 	if p.Delete > 0 {
-		if e := env.NG.DeleteNodes(storeNodes(env.W, p.Delete)...); e != nil {
+		if p.DeleteFailAt > 0 {
+			env.W.D = newOccDecider().failAt(sim.OpTerminate, p.DeleteFailAt)
+		}
+		e := env.NG.DeleteNodes(storeNodes(env.W, p.Delete)...)
+		env.W.D = nil
+		if e != nil && p.DeleteFailAt == 0 {
 			return nil, nil, 0, 0, fmt.Errorf("DeleteNodes: %v", e)
 		}
 	}
@@ -184,8 +190,11 @@ func c17Grid(t *testing.T, tier string, shard, shards int, c *h.Collector) {
 		for desired := 0; desired <= 6; desired++ {
 			for max := 0; max <= 7; max++ {
 				for d := int64(-1); d <= 8; d++ {
-					for del := 0; del <= 2 && del <= desired; del++ {
+					for del := 0; del <= 3 && del <= desired; del++ {
 						run(c17Case{Desired: desired, Max: max, D: d, Delete: del, Split: 1, PageSize: 50, Subnets: 1})
+						for f := 1; f <= del; f++ {
+							run(c17Case{Desired: desired, Max: max, D: d, Delete: del, DeleteFailAt: f, Split: 1, PageSize: 50, Subnets: 1})
+						}
 					}
 				}
 			}
@@ -221,7 +230,7 @@ func init() {
 	register(&Check{
 		ID:    "C17",
 		Level: "exploration",
-		Rule: "every provider-level sequence Refresh ; [DeleteNodes(0..2)] ; IncreaseSize(d) on the real NodeGroup for desired 0..6 x max 0..7 x d -1..8; fleet mode for d in {1,19,20,21,39,40,41,59,60,61,100} x lifecycle {unset, on-demand, spot} x overrides {none, 2 types} x subnets {1,2} x fleet answer split over 1..3 instance sets x status page size {1,50}; " +
+		Rule: "every provider-level sequence Refresh ; [DeleteNodes(0..3), optionally with its k-th terminate call failing] ; IncreaseSize(d) on the real NodeGroup for desired 0..6 x max 0..7 x d -1..8; fleet mode for d in {1,19,20,21,39,40,41,59,60,61,100} x lifecycle {unset, on-demand, spot} x overrides {none, 2 types} x subnets {1,2} x fleet answer split over 1..3 instance sets x status page size {1,50}; " +
 			"recorded arguments compared with the statement; non-trivial = every sequence; distinct by its parameters",
 		Grid:        c17Grid,
 		Assumptions: append([]string{"no other actor changes the desired capacity between Refresh and the request (an absolute-set API is inherently racy with external writers; the property quantifies over inputs and configurations)"}, commonAssumptions...),
